@@ -25,15 +25,15 @@ def gen_cases(tier, seed):
         cases.append(c)
 
     def grid():
-        ng = rng.randint(2, 8 if quick else 40)
+        ng = rng.randint(2, 8 if quick else 24) if rng.random() < 0.9 else rng.randint(2, 8 if quick else 40)
         start = rng.choice([-1.8, -2.0, 0.0, rng.uniform(-3, 1)])
         step = rng.choice([0.2, 0.5, 1.0, rng.uniform(0.05, 0.8)])
         if start + step * (ng - 1) > 5:
             step = (5 - start) / ng
         return [sc.fl(start + k * step) for k in range(ng)]
 
-    sizes = [5, 6, 8, 10, 12, 16] if quick else [5, 6, 8, 12, 16, 24, 32, 48, 64]
-    for _ in range(60 if quick else 600):
+    sizes = [5, 6, 8, 10, 12, 16] if quick else [5, 6, 8, 12, 16, 24, 32, 48]
+    for _ in range(60 if quick else 400):
         variant = rng.choice(["wcv", "wcvp"])
         n = rng.choice(sizes)
         nd = rng.choice([-3000, 0, 32767, 255])
